@@ -43,6 +43,8 @@ ProofCopiesAgree ==
   /\ Proofs!ShapedP(tbl) = Shaped(tbl)
   /\ \A j \in 1..Len(tbl.samp) : Proofs!ColP(tbl, j) = Col(tbl, j)
   /\ \A o \in PermsOf(tbl.obs) : Proofs!SortObsP(tbl, o) = SortOrder(tbl, o, "observation")
+  /\ \A u \in {tbl, Transpose(tbl), RemoveEmpty(tbl, "whole"), PA(tbl)} :
+        Proofs!EqContentP(tbl, u) = EqContent(tbl, u) /\ Proofs!EqContentP(u, tbl) = EqContent(u, tbl)
   /\ \A n \in 0..3 : \A sq \in [1..n -> {"o1", "o2", "zz"}] :
         /\ Proofs!IsInjP(sq) = IsInj(sq)
         /\ \A e \in {"o1", "o2", "zz", "o3"} : Proofs!IdxP(sq, e) = Idx(sq, e)
